@@ -190,8 +190,11 @@ def _run_main(ctx):
             except StopIteration:
                 pass
             except Exception as e:  # noqa
+                from props.c08 import _unsigned_promotion
+                cause = _unsigned_promotion(g, graph if hasattr(graph, "nodes") else None)
+                extra = {"cause": cause} if cause else {}
                 ctx.violate(case, "an operation of the history raised on a consistent graph",
-                            {**sig, "what": "raised", "err": err_name(e)}, observed=f"{type(e).__name__}: {e}")
+                            {**sig, "what": "raised", "err": err_name(e), **extra}, observed=f"{type(e).__name__}: {e}")
     ctx.compare("histories", cases, obs, reqs)
 
 
